@@ -51,7 +51,7 @@ impl World for TxPoolWorld {
     }
     fn default_runs(&self, _prop: &str, tier: Tier) -> u64 {
         match tier {
-            Tier::Quick => 5000,
+            Tier::Quick => 4000,
             Tier::Thorough => 150_000,
         }
     }
